@@ -276,7 +276,17 @@ def make_select(S):
     def select(r, w, x, timeout=None):
         S.before('sel')
         S.emit('sel')
-        return [], [], []
+        # nothing is ever readable; a socket asked about for WRITING is writable unless the scenario models back-pressure
+        # (`stall_w` polls during which the peer has not drained its receive window yet; a blocking send would just wait)
+        ready = []
+        for sk in w:
+            base = getattr(sk, 'actual_socket', sk)
+            n = getattr(base, 'stall_w', 0)
+            if n > 0:
+                base.stall_w = n - 1
+            else:
+                ready.append(sk)
+        return [], ready, []
     return types.SimpleNamespace(select=select, error=OSError)
 
 
